@@ -29,3 +29,27 @@ Proof.
 Qed.
 
 Lemma fzero_fin : fin fzero = true. Proof. reflexivity. Qed.
+
+Lemma sf_eqb_eq a b : sf_eqb a b = true -> a = b.
+Proof.
+  destruct a, b; cbn; try discriminate; intros H.
+  - apply eqb_prop in H. subst. reflexivity.
+  - apply eqb_prop in H. subst. reflexivity.
+  - reflexivity.
+  - apply andb_prop in H. destruct H as [H H3]. apply andb_prop in H. destruct H as [H1 H2].
+    apply eqb_prop in H1. apply Pos.eqb_eq in H2. apply Z.eqb_eq in H3. subst. reflexivity.
+Qed.
+
+Lemma fbits_eq_eq x y : fbits_eq x y = true -> x = y.
+Proof. unfold fbits_eq. intros H. apply sf_eqb_eq in H. apply B2SF_inj in H. exact H. Qed.
+
+Lemma fbits_eq_refl x : fbits_eq x x = true.
+Proof.
+  unfold fbits_eq. destruct (B2SF x); cbn; rewrite ?eqb_reflx, ?Pos.eqb_refl, ?Z.eqb_refl; reflexivity.
+Qed.
+
+Lemma fle_not_nan_r a x : fle a x = true -> fnan x = false.
+Proof. destruct x; cbn; try reflexivity. destruct a; cbn; discriminate. Qed.
+Lemma fle_not_nan_l x b : fle x b = true -> fnan x = false.
+Proof. destruct x; cbn; try reflexivity. discriminate. Qed.
+
